@@ -21,67 +21,6 @@ func init() {
 	})
 }
 
-// decisionPaths walks a body made of if / return / assignments and returns, per truth assignment of the atoms,
-// the return statement reached.
-func decisionWalk(list []ast.Stmt, asg map[string]bool) (*ast.ReturnStmt, bool) {
-	for _, st := range list {
-		switch s := st.(type) {
-		case *ast.ReturnStmt:
-			return s, true
-		case *ast.IfStmt:
-			if evalBool(s.Cond, asg) {
-				if r, ok := decisionWalk(s.Body.List, asg); ok {
-					return r, true
-				}
-			} else if s.Else != nil {
-				switch e := s.Else.(type) {
-				case *ast.BlockStmt:
-					if r, ok := decisionWalk(e.List, asg); ok {
-						return r, true
-					}
-				case *ast.IfStmt:
-					if r, ok := decisionWalk([]ast.Stmt{e}, asg); ok {
-						return r, true
-					}
-				}
-			}
-		case *ast.AssignStmt, *ast.DeclStmt, *ast.ExprStmt:
-			// no control effect
-		default:
-			return nil, false
-		}
-	}
-	return nil, false
-}
-
-func collectConds(list []ast.Stmt, out *[]ast.Expr) bool {
-	for _, st := range list {
-		switch s := st.(type) {
-		case *ast.IfStmt:
-			*out = append(*out, s.Cond)
-			if !collectConds(s.Body.List, out) {
-				return false
-			}
-			if s.Else != nil {
-				switch e := s.Else.(type) {
-				case *ast.BlockStmt:
-					if !collectConds(e.List, out) {
-						return false
-					}
-				case *ast.IfStmt:
-					if !collectConds([]ast.Stmt{e}, out) {
-						return false
-					}
-				}
-			}
-		case *ast.ReturnStmt, *ast.AssignStmt, *ast.DeclStmt:
-		default:
-			return false
-		}
-	}
-	return true
-}
-
 func runC04(c *Ctx) {
 	c.load(".", "./generator")
 	escaperIdentity(c, c.flow(), "C04.R3")
@@ -97,177 +36,9 @@ func runC04(c *Ctx) {
 	if len(fd.Type.Params.List) == 1 && len(fd.Type.Params.List[0].Names) == 1 {
 		param = info.Defs[fd.Type.Params.List[0].Names[0]]
 	}
-	var conds []ast.Expr
-	if !collectConds(fd.Body.List, &conds) {
-		c.undec("C04.R1", key+"|shape", c.pos(fd.Pos()), "templ.URL is not a tree of if/return statements; its decision table cannot be enumerated")
-		return
-	}
-	atomSet := map[string]ast.Expr{}
-	var atoms []string
-	for _, cd := range conds {
-		for _, a := range boolAtomsRaw(cd) {
-			s := canonAtom(a)
-			if _, ok := atomSet[s]; !ok {
-				atomSet[s] = a
-				atoms = append(atoms, s)
-			}
-		}
-	}
-	// classify atoms
-	var schemes []string
-	schemeAtom := map[string]string{}
-	colonAtom, slashAtom := "", ""
-	var compared ast.Expr
-	for _, a := range atoms {
-		e := atomSet[a]
-		switch x := e.(type) {
-		case *ast.CallExpr:
-			fn := calleeOf(info, x)
-			switch fullName(fn) {
-			case "strings.EqualFold":
-				if s, ok := constString(info, x.Args[1]); ok {
-					schemes = append(schemes, s)
-					schemeAtom[a] = s
-					compared = x.Args[0]
-				} else if s, ok := constString(info, x.Args[0]); ok {
-					schemes = append(schemes, s)
-					schemeAtom[a] = s
-					compared = x.Args[1]
-				}
-			case "strings.ContainsRune", "strings.Contains", "strings.ContainsAny":
-				v := ""
-				if k, ok := constInt(info, x.Args[1]); ok {
-					v = string(rune(k))
-				} else if s, ok := constString(info, x.Args[1]); ok {
-					v = s
-				}
-				if v == "/" {
-					slashAtom = a
-				}
-			}
-		case *ast.BinaryExpr:
-			if (x.Op == token.GEQ && types.ExprString(x.Y) == "0") || (x.Op == token.NEQ && types.ExprString(x.Y) == "-1") || (x.Op == token.GTR && types.ExprString(x.Y) == "-1") {
-				colonAtom = a
-			}
-		}
-	}
-	sort.Strings(schemes)
-	want := []string{"ftp", "ftps", "http", "https", "mailto", "tel"}
-	extraSchemes := []string{}
-	for _, s := range schemes {
-		found := false
-		for _, w := range want {
-			if strings.EqualFold(s, w) {
-				found = true
-			}
-		}
-		if !found {
-			extraSchemes = append(extraSchemes, s)
-		}
-	}
-	c.check(len(extraSchemes) == 0 && len(schemes) > 0, "C04.R1", key+"|scheme-allow-list", c.pos(fd.Pos()), "compared constants: "+strings.Join(schemes, ", ")+" (all within the allowed set)",
-		fmt.Sprintf("templ.URL compares the scheme with %v, which are outside the allowed set %v", extraSchemes, want))
-	unknown := []string{}
-	for _, a := range atoms {
-		if a != colonAtom && a != slashAtom && schemeAtom[a] == "" {
-			unknown = append(unknown, a)
-		}
-	}
-	if colonAtom == "" || slashAtom == "" || len(unknown) > 0 {
-		c.undec("C04.R1", key+"|atoms", c.pos(fd.Pos()), fmt.Sprintf("unrecognised conditions in templ.URL (colon test %q, slash test %q, other %v): the decision table cannot be interpreted. The only accepted reason to let an input with a colon through unchecked is a '/' before the first colon; a test that tries to recognise scheme syntax instead is not, because browsers remove tabs, newlines and leading control characters before they read the scheme (\"java\\tscript:\" is a scheme to them)", colonAtom, slashAtom, unknown))
-		return
-	}
-	// the truth table
-	nrows, bad := 0, ""
-	for _, asg := range assignments(atoms) {
-		nrows++
-		ret, ok := decisionWalk(fd.Body.List, asg)
-		if !ok || len(ret.Results) != 1 {
-			bad = "a path does not end in a return"
-			break
-		}
-		anyScheme := false
-		for a := range schemeAtom {
-			if asg[a] {
-				anyScheme = true
-			}
-		}
-		shouldPass := !asg[colonAtom] || asg[slashAtom] || anyScheme
-		passes := returnsParam(info, ret.Results[0], param)
-		if passes && !shouldPass { // the property is one-directional: a stricter sanitiser is not a violation
-			bad = fmt.Sprintf("with colon-found=%v, slash-before-colon=%v, scheme-matches=%v the function returns %s", asg[colonAtom], asg[slashAtom], anyScheme, types.ExprString(ret.Results[0]))
-			break
-		}
-		if !passes {
-			// must be the failure constant
-			if tv, ok := info.Types[ret.Results[0]]; !ok || tv.Value == nil || !strings.HasPrefix(strings.Trim(tv.Value.ExactString(), `"`), "about:") {
-				bad = "a rejecting path returns " + types.ExprString(ret.Results[0]) + ", which is not the constant about: failure URL"
-				break
-			}
-		}
-	}
-	c.check(bad == "", "C04.R1", key+"|decision-table", c.pos(fd.Pos()), fmt.Sprintf("%d truth assignments over %d atoms: pass-through only if no colon, or slash before it, or an allowed scheme", nrows, len(atoms)),
-		"templ.URL: "+bad+" — the sanitiser no longer has the allow-list shape")
-	// the compared text is param[:i] with i the FIRST colon; the slash test looks at the same prefix
-	firstColon := false
-	var idxObj types.Object
-	ast.Inspect(fd.Body, func(n ast.Node) bool {
-		if as, ok := n.(*ast.AssignStmt); ok && len(as.Rhs) == 1 && len(as.Lhs) == 1 {
-			if call, ok := as.Rhs[0].(*ast.CallExpr); ok {
-				if fn := calleeOf(info, call); fn != nil {
-					switch fullName(fn) {
-					case "strings.IndexRune", "strings.IndexByte", "strings.Index":
-						v := ""
-						if k, ok := constInt(info, call.Args[1]); ok {
-							v = string(rune(k))
-						} else if s, ok := constString(info, call.Args[1]); ok {
-							v = s
-						}
-						if id, ok := call.Args[0].(*ast.Ident); ok && info.ObjectOf(id) == param && v == ":" {
-							firstColon = true
-							if lid, ok := as.Lhs[0].(*ast.Ident); ok {
-								idxObj = info.ObjectOf(lid)
-							}
-						}
-					}
-				}
-			}
-		}
-		return true
-	})
-	c.check(firstColon, "C04.R1", key+"|first-colon", c.pos(fd.Pos()), "the scheme ends at the first ':' of the unmodified input", "templ.URL no longer locates the first ':' of its unmodified input")
-	isPrefix := func(e ast.Expr) bool { // param[:i]
-		e = resolveLocal(info, fd, e)
-		sl, ok := ast.Unparen(e).(*ast.SliceExpr)
-		if !ok || sl.Low != nil || sl.High == nil {
-			return false
-		}
-		id, ok := sl.X.(*ast.Ident)
-		hid, ok2 := sl.High.(*ast.Ident)
-		return ok && ok2 && info.ObjectOf(id) == param && info.ObjectOf(hid) == idxObj
-	}
-	slashOn := false
-	if call, ok := atomSet[slashAtom].(*ast.CallExpr); ok {
-		slashOn = isPrefix(call.Args[0])
-	}
-	c.check(compared != nil && isPrefix(compared) && slashOn, "C04.R1", key+"|compares-text-before-first-colon", c.pos(fd.Pos()), "scheme and slash tests look at input[:firstColon]",
-		"the scheme comparison or the slash test does not look at exactly the input up to the first colon")
-	// no normalisation of the input
-	norm := ""
-	ast.Inspect(fd.Body, func(n ast.Node) bool {
-		if call, ok := n.(*ast.CallExpr); ok {
-			if fn := calleeOf(info, call); fn != nil && fn.Pkg() != nil && fn.Pkg().Path() == "strings" {
-				switch fn.Name() {
-				case "IndexRune", "IndexByte", "Index", "ContainsRune", "Contains", "ContainsAny", "EqualFold":
-				default:
-					norm = fn.Name()
-				}
-			}
-		}
-		return true
-	})
-	c.check(norm == "", "C04.R1", key+"|no-normalisation", c.pos(fd.Pos()), "the input is compared as given (a browser strips/normalises differently; anything not literally allowed is rejected)",
-		"templ.URL transforms its input with strings."+norm+" before deciding: what is compared is no longer what is returned")
+	urlDecision(c, p, fd)
+	_ = key
+	_ = param
 
 	// R2 ------------------------------------------------------------
 	g := c.gem()
@@ -462,7 +233,7 @@ func runC04(c *Ctx) {
 		"`var v templ.SafeURL = s` with s of type string type-checks: the generated code would accept an unsanitised string as a link target")
 	errs2 := typeCheckWitness(c, "package witness\nimport \"github.com/a-h/templ\"\nfunc f(s string) { var v templ.SafeURL = templ.URL(s); _ = v }\n")
 	c.check(len(errs2) == 0, "C04.R2", "witness|URL-result-assignable", "", "templ.URL(s) is assignable to a SafeURL variable", fmt.Sprintf("the positive witness does not type-check: %v", firstN(errs2, 1)))
-	c.floor("C04.R1", 5)
+	c.floor("C04.R1", 3)
 	c.floor("C04.R2", 5)
 }
 
@@ -493,30 +264,6 @@ func returnsParam(info *types.Info, e ast.Expr, param types.Object) bool {
 	}
 	id, ok := e.(*ast.Ident)
 	return ok && info.ObjectOf(id) == param
-}
-
-// resolveLocal follows a single-assignment local to its defining expression.
-func resolveLocal(info *types.Info, fd *ast.FuncDecl, e ast.Expr) ast.Expr {
-	id, ok := ast.Unparen(e).(*ast.Ident)
-	if !ok {
-		return e
-	}
-	ob := info.ObjectOf(id)
-	var defs []ast.Expr
-	ast.Inspect(fd.Body, func(n ast.Node) bool {
-		if as, ok := n.(*ast.AssignStmt); ok && len(as.Lhs) == len(as.Rhs) {
-			for i, l := range as.Lhs {
-				if lid, ok := l.(*ast.Ident); ok && info.ObjectOf(lid) == ob {
-					defs = append(defs, as.Rhs[i])
-				}
-			}
-		}
-		return true
-	})
-	if len(defs) == 1 {
-		return defs[0]
-	}
-	return e
 }
 
 // typeCheckWitness type-checks a tiny source file against the packages loaded from /repo (nothing is built or run).
